@@ -57,6 +57,7 @@ type hbState struct {
 	races    map[string]bool
 	firstMsg string
 	firstSig string
+	atomics  map[interface{}]VC
 }
 
 func newHB() *hbState {
@@ -198,4 +199,29 @@ func Access(p interface{}, write bool, name string) {
 		vs.reads = append(vs.reads, me)
 	}
 	s.counters["hb_accesses"]++
+}
+
+// AtomicSync gives an atomic operation on address p its happens-before effect:
+// every atomic operation first acquires the clock left at p by earlier atomic
+// writes; operations that write (store, add, swap, cas) also release into it.  It
+// is also a scheduling point.
+func AtomicSync(p interface{}, acquire, release bool) {
+	s := cur
+	if s == nil || s.aborting {
+		return
+	}
+	s.tick()
+	if s.hb == nil {
+		return
+	}
+	h := s.hb
+	if h.atomics == nil {
+		h.atomics = map[interface{}]VC{}
+	}
+	if acquire {
+		s.Acquire(h.atomics[p])
+	}
+	if release {
+		h.atomics[p] = s.Release(h.atomics[p])
+	}
 }
